@@ -121,7 +121,7 @@ PROPS['C01'] = dict(
     rule=POS_RULE + '; every 16th position additionally runs Board::legal on all 20480 triples',
 )
 PROPS['C02'] = dict(
-    coq_targets=[],
+    coq_targets=['Proofs/MakeMoveTwin.vo', 'Proofs/ApplySpecLib.vo', 'Proofs/ApplySpec.vo', 'Proofs/ApplySpecEp.vo', 'Proofs/ApplySpecExamples.vo'],
     scope='see theorem list',
     streams=lambda tier: [pos_stream(tier, 14, 900, 'succ')],
     tags=['succ_model.*', 'succ_flags', 'succ_parse', 'succ_ch', 'succ_pin', 'succ_pcs', 'succ_col', 'succ_comb', 'succ_hash', 'oracle_apply', 'oracle_ep'] + COMMON_MODEL_TAGS,
@@ -147,7 +147,8 @@ PROPS['C04'] = dict(
     rule=POS_RULE,
 )
 PROPS['C05'] = dict(
-    coq_targets=[],
+    coq_targets=['Proofs/SpecInvBase.vo','Proofs/SpecInvMoves.vo','Proofs/SpecInvEffect.vo','Proofs/SpecInvGoals.vo','Proofs/SpecInvExamples.vo','Proofs/RoundTripAbs.vo','Proofs/RoundTripSane.vo','Proofs/RoundTripMain.vo'],
+    prop_files=['C05', 'C05b'],
     scope='see theorem list',
     streams=lambda tier: [pos_stream(tier, 14, 900, 'succ')],
     tags=['oracle_valid_succ', 'oracle_monotone', 'impl_sane', 'sane', 'succ_flags', 'succ_model'] + COMMON_MODEL_TAGS,
@@ -164,7 +165,7 @@ PROPS['C08'] = dict(
     rule=POS_RULE + '; the hash of every position reached by moves or null moves is compared with the hash of the same position built from scratch from its neutral encoding (path independence) and std Hash with the FEN re-parse',
 )
 PROPS['C17'] = dict(
-    coq_targets=[],
+    coq_targets=['Proofs/MirrorLib.vo', 'Proofs/MirrorGeneric.vo', 'Proofs/MirrorV.vo', 'Proofs/MirrorH.vo', 'Proofs/MirrorMain.vo'],
     scope='see theorem list',
     streams=lambda tier: [dict(stages=[H('mirror', sz(tier, 8, 500)), D('mirror')], shards=16, min_stat={'mirror_pairs': 500})],
     tags=['mirror_.*'] + COMMON_MODEL_TAGS,
